@@ -194,9 +194,18 @@ Section FlatMap.
       end
     end.
 
-  Definition fm_fin (st : fm_st) : bool * fm_st :=
+  (* the part of poll_finalize with a non-empty buffer: ready!(self.poll_ready()); next.poll_finalize() *)
+  Definition fm_fin_drain (st : fm_st) : bool * fm_st :=
     let (r, st1) := fm_ready st in
     if r then let (r2, s2) := fin nx (snd st1) in (r2, (fst st1, s2)) else (false, st1).
+
+  (* poll_finalize (as of /repo cca62d2de0e): if buffer.is_some() { ready!(self.poll_ready()) };
+     next.poll_finalize() -- with an empty buffer the downstream's readiness is not polled *)
+  Definition fm_fin (st : fm_st) : bool * fm_st :=
+    match fst st with
+    | None => let (r2, s2) := fin nx (snd st) in (r2, (None, s2))
+    | Some _ => fm_fin_drain st
+    end.
 
   (* start_send asserts buffer.is_none(): panic otherwise *)
   Definition fm_send (g : A -> list B) (a : A) (st : fm_st) : option fm_st :=
